@@ -141,6 +141,15 @@ class Stream:
         completed).
         """
 
+        if self._closing_deferred:
+            d = defer.Deferred()
+
+            def closed(arg):
+                d.callback(arg)
+                return arg
+            self._closing_deferred.addBoth(closed)
+            return d
+
         self._closing_deferred = defer.Deferred()
 
         def close_command_is_queued(*args):
